@@ -41,7 +41,8 @@ PATHS = {
 def base_country(code, cur=None, region=False):
     return {'code': code, 'cur': cur or code, 'region': region, 'gov': None if region else 'CONS', 'hh': 'HH',
             'cap': False, 'bus': 'FM', 'margin': 0.0, 'tax': None if region else 0.2, 'mon': False, 'dep': None,
-            'a1': 0.6, 'a2': 0.4, 'G': 'G20', 'r': 'r25', 'ic': False, 'hhtax': None}
+            'a1': 0.6, 'a2': 0.4, 'G': 'G20', 'r': 'r25', 'ic': False, 'hhtax': None,
+            'moncode': 'MON', 'dep2': False}
 
 
 def canon(spec):
@@ -74,6 +75,8 @@ def declarations(c):
         out.append(('MON', []))
     if c['dep'] or c['gov'] == 'TRECB':
         out.append(('DEP', []))
+    if c.get('dep2'):
+        out.append(('BOND', []))
     return out
 
 
@@ -191,10 +194,13 @@ def _declare(b, c, co, did, names, specs_by_code, imported, deferred):
         S[(code, 'TF')] = TaxFlow(co, N(names, 'TF'), taxrate=c['tax'], taxes_paid_to=N(names, _zone_gov_code(b, c)))
     elif did == 'MON':
         issuer = 'CB' if c['gov'] == 'TRECB' else 'GOV'
-        S[(code, 'MON')] = MoneyMarket(co, issuer_short_code=N(names, issuer))
+        S[(code, 'MON')] = MoneyMarket(co, code=c.get('moncode', 'MON'), issuer_short_code=N(names, issuer))
     elif did == 'DEP':
         issuer = 'TRE' if c['gov'] == 'TRECB' else 'GOV'
         S[(code, 'DEP')] = DepositMarket(co, issuer_short_code=N(names, issuer))
+    elif did == 'BOND':
+        issuer = 'TRE' if c['gov'] == 'TRECB' else 'GOV'
+        S[(code, 'BOND')] = DepositMarket(co, code='BOND', issuer_short_code=N(names, issuer))
     else:
         raise ValueError(did)
 
@@ -235,24 +241,28 @@ def _tail(b, names):
             dep = S[(code, 'DEP')]
             dep.SetExogenous('r', PATHS[c['r']])
             kind = c['dep'] or 'const'
+            moncode = c.get('moncode', 'MON')
+            if c.get('dep2'):
+                S[(code, 'BOND')].SetExogenous('r', PATHS['rstep'])
             for hid in ('HH', 'CAP'):
                 if (code, hid) not in S:
                     continue
                 hh = S[(code, hid)]
-                if kind == 'const':
-                    hh.GenerateAssetWeighting({'DEP': '0.25'}, 'MON')
-                elif kind == 'pc' and hid == 'HH':
+                if kind == 'pc' and hid == 'HH':
                     hh.AddVariable('L0', 'lambda0', '0.635')
                     hh.AddVariable('L1', 'lambda1', '5.')
                     hh.AddVariable('L2', 'lambda2', '.01')
-                    hh.GenerateAssetWeighting(
-                        {'DEP': 'L0 + L1 * {0} - L2 * (AfterTax/F)'.format(dep.GetVariableName('r'))}, 'MON')
-                elif kind == 'pc':
-                    hh.GenerateAssetWeighting({'DEP': '0.25'}, 'MON')   # (a sector whose F stays 0 cannot use AfterTax/F)
-                else:
+                    w = 'L0 + L1 * {0} - L2 * (AfterTax/F)'.format(dep.GetVariableName('r'))
+                elif kind == 'rate':
                     hh.AddVariable('L0', 'lambda0', '0.635')
                     hh.AddVariable('L1', 'lambda1', '5.')
-                    hh.GenerateAssetWeighting([('DEP', 'L0 + L1 * {0}'.format(dep.GetVariableName('r')))], 'MON')
+                    w = 'L0 + L1 * {0}'.format(dep.GetVariableName('r'))
+                else:
+                    w = '0.25'      # (a sector whose F stays 0 cannot use AfterTax/F: Capitalists get a constant weight)
+                weights = [('DEP', w)]
+                if c.get('dep2'):
+                    weights.append(('BOND', '0.2'))
+                hh.GenerateAssetWeighting(weights, moncode)
         if c['ic'] and (code, 'HH') in S and gspec is not None:
             S[(code, 'HH')].AddInitialCondition('F', 80.)
             gov = S[(gspec['code'], gov_code(gspec))]
@@ -341,6 +351,8 @@ def country_deviations(c, allow_gold):
         out.append(('dep=rate', {'mon': True, 'dep': 'rate'}))
         out.append(('dep=pc', {'mon': True, 'dep': 'pc'}))
         out.append(('r=step', {'r': 'rstep'}))
+        out.append(('dep2', {'dep2': True}))
+        out.append(('moncode', {'moncode': 'CASH'}))
     out.append(('hh=HHX', {'hh': 'HHX'}))
     out.append(('hhtax', {'hhtax': 0.1}))
     out.append(('cap', {'cap': True}))
@@ -373,6 +385,10 @@ def well_formed(spec):
         if c['region'] and (c['mon'] or c['dep'] or c['tax'] is not None):
             return False
         if c['ic'] and zone_gov(spec, c['cur']) is None:
+            return False
+        if c.get('dep2') and not c['dep']:
+            return False
+        if c.get('moncode', 'MON') != 'MON' and not (c['mon'] and c['gov'] == 'CONS'):
             return False
         if c['cap'] and c['bus'] == 'MO':
             return False    # library: NotImplementedError('Not tested yet')
